@@ -60,8 +60,9 @@ type World struct {
 	b2Hash     [32]byte
 	cb1, tx1   *btc.Tx
 
-	syncCh    chan chan struct{}
-	mainPanic atomic.Value
+	syncCh                 chan chan struct{}
+	peersNormal, peersFull *qdb.DB
+	mainPanic              atomic.Value
 }
 
 func fatal(a ...interface{}) {
@@ -297,6 +298,7 @@ func newWorld(dir string) *World {
 	if peersdb.PeerDB, er = qdb.NewDB(dir+string(os.PathSeparator)+"peers3", true); er != nil {
 		fatal("peersdb", er)
 	}
+	w.peersNormal = peersdb.PeerDB
 	txpool.InitMempool()
 	common.BlockChainSynchronized.Store(true)
 	network.FriendsAccess.Lock()
@@ -487,6 +489,7 @@ type State struct {
 	Mp    bool   `json:"mp"`
 	O1    bool   `json:"o1"` // the first / second colliding orphan is in the pool of rejected transactions
 	O2    bool   `json:"o2"`
+	Pf    bool   `json:"pf"` // the peers database is at its size limit
 	Why   string `json:"why,omitempty"`
 }
 
@@ -515,8 +518,88 @@ func (w *World) project(c *network.OneConnection, runExited bool) (st State) {
 	_, st.Mp = txpool.TransactionsToSend[w.tx1.Hash.BIdx()]
 	_, st.O1 = txpool.TransactionsRejected[w.orph[0].Hash.BIdx()]
 	_, st.O2 = txpool.TransactionsRejected[w.orph[1].Hash.BIdx()]
+	st.Pf = peersdb.PeerDB.Count() >= peersdb.MaxPeersInDB+peersdb.MaxPeersDeviation
 	txpool.TxMutex.Unlock()
 	return
+}
+
+func isEnv(cmd string) bool {
+	return cmd == "idle" || cmd == "peersfull" || cmd == "Bblock" || cmd == "Bheaders"
+}
+
+// usePeersDB switches between the normal (nearly empty) peers database and one filled to its size limit.
+func (w *World) usePeersDB(full bool) {
+	if !full && peersdb.PeerDB == w.peersNormal {
+		return
+	}
+	peersdb.Lock()
+	defer peersdb.Unlock()
+	if !full {
+		peersdb.PeerDB = w.peersNormal
+		return
+	}
+	if w.peersFull == nil {
+		db, er := qdb.NewDB(w.dir+string(os.PathSeparator)+"peersfull", true)
+		if er != nil {
+			fatal("peersfull", er)
+		}
+		now := uint32(time.Now().Unix())
+		for i := uint32(0); db.Count() < peersdb.MaxPeersInDB+peersdb.MaxPeersDeviation; i++ {
+			ip := [4]byte{byte(60 + i>>16), byte(i >> 8), byte(i), 77}
+			p := peersdb.NewPeer(append(le32(now-3600), netaddr(btc.SERVICE_NETWORK|btc.SERVICE_SEGWIT, ip, 8333)...))
+			db.Put(qdb.KeyType(p.UniqID()), p.Bytes())
+		}
+		w.peersFull = db
+	}
+	peersdb.PeerDB = w.peersFull
+}
+
+// peerConn: a second peer on its own connection (only ever sends valid messages)
+type peerConn struct {
+	c       *network.OneConnection
+	end     net.Conn
+	runDone chan struct{}
+	pending bool // the first four bytes of the next frame are already sent
+}
+
+func (w *World) newPeerB() *peerConn {
+	n := atomic.AddUint32(&sessCounter, 1)
+	ad, er := peersdb.NewIncommingConnection(fmt.Sprintf("11.%d.%d.%d:8333", 1+(n>>16)&0x7f, (n>>8)&0xff, n&0xff), true)
+	if er != nil || ad == nil {
+		return nil
+	}
+	p := &peerConn{c: network.NewConnection(ad), runDone: make(chan struct{})}
+	nodeEnd, peerEnd := net.Pipe()
+	p.end = peerEnd
+	p.c.Conn = nodeEnd
+	p.c.X.Incomming = true
+	p.c.X.ConnectedAt = time.Now()
+	network.VerifAddToList(p.c)
+	go func() {
+		defer close(p.runDone)
+		p.c.Run()
+	}()
+	go func() { // drain what the node sends to it
+		b := make([]byte, 1<<16)
+		for {
+			if _, e := peerEnd.Read(b); e != nil {
+				return
+			}
+		}
+	}()
+	return p
+}
+
+// deliver sends one frame and returns once the node is back in FetchMessage on that connection.
+func (p *peerConn) deliver(f []byte, lim time.Duration) string {
+	if p.pending {
+		f = f[4:]
+	}
+	if st := send(p.end, f, p.runDone, lim); st != "" {
+		return st
+	}
+	p.pending = true
+	return send(p.end, common.Magic[:], p.runDone, lim)
 }
 
 // waitTicks returns when OneConnection.Tick has run n more times ("" ok, "timeout", "closed").
@@ -780,6 +863,22 @@ func (w *World) runSession(id int, msgs []Class, seed int64, lim Limits, keepByt
 		}
 	}
 
+	var peerB *peerConn
+	defer func() {
+		if res.Viol == "" { // (after a violation this process ends; the peers-db mutex may be the very lock that is stuck)
+			w.usePeersDB(false)
+		}
+		if peerB != nil {
+			peerB.end.Close()
+			select {
+			case <-peerB.runDone:
+			case <-time.After(2 * time.Second):
+			}
+			if res.Viol == "" {
+				network.VerifDelFromList(peerB.c)
+			}
+		}
+	}()
 	var pendingMagic []byte // first four bytes of the next frame, already sent as the barrier of the previous message
 	dead := false
 	prevScore := 0
@@ -805,7 +904,7 @@ func (w *World) runSession(id int, msgs []Class, seed int64, lim Limits, keepByt
 		}
 		var f []byte
 		var er error
-		if cl.Cmd != "idle" {
+		if !isEnv(cl.Cmd) {
 			f, er = w.concretise(cl, nonce, rnd)
 		}
 		if er != nil {
@@ -830,6 +929,32 @@ func (w *World) runSession(id int, msgs []Class, seed int64, lim Limits, keepByt
 		if cl.Cmd == "idle" {
 			// the peer stays silent until the node's own tick has run (twice): timers, getheaders / getdata requests
 			st = w.waitTicks(c, 2, runDone, lim.Msg)
+		} else if cl.Cmd == "peersfull" {
+			w.usePeersDB(true) // the environment: the peers database has reached its size limit
+		} else if cl.Cmd == "Bblock" || cl.Cmd == "Bheaders" {
+			// another peer, on its own connection, delivers block B1 / announces the headers of B1 and B2
+			if peerB == nil {
+				if peerB = w.newPeerB(); peerB != nil {
+					pr = append(pr, lockProbe{name: "peerB.c.Mutex", try: func() bool {
+						if peerB.c.Mutex.TryLock() {
+							peerB.c.Mutex.Unlock()
+							return true
+						}
+						return false
+					}})
+					vs := w.valid("version", nil)
+					vs[5] = segF([]byte{0x50, 0x45, 0x45, 0x52, 0x2d, 0x42, 0x21, 0x21}) // its own nonce
+					if bs := peerB.deliver(frame("version", join(vs)), lim.Msg); bs != "" {
+						res.Note = "harness: peer B could not complete its handshake: " + bs
+					}
+				}
+			}
+			if peerB != nil {
+				what := map[string]string{"Bblock": "block", "Bheaders": "headers"}[cl.Cmd]
+				if bs := peerB.deliver(frame(what, join(w.valid(what, nil))), lim.Msg); bs == "timeout" {
+					st = "timeout" // (that peer's handler did not return)
+				}
+			}
 		} else {
 			sr.Len = len(f) - 24
 			if keepBytes {
@@ -844,10 +969,10 @@ func (w *World) runSession(id int, msgs []Class, seed int64, lim Limits, keepByt
 		}
 		// barrier: the first four bytes of the next frame are consumed only after this handler returned
 		var next []byte
-		if st == "" && cl.Cmd != "idle" {
+		if st == "" && !isEnv(cl.Cmd) {
 			next = append([]byte(nil), common.Magic[:]...)
 			nx := i + 1
-			for nx < len(msgs) && msgs[nx].Cmd == "idle" {
+			for nx < len(msgs) && isEnv(msgs[nx].Cmd) {
 				nx++
 			}
 			if nx < len(msgs) && msgs[nx].Cmd == "frame" && msgs[nx].K == "badmagic" {
